@@ -709,3 +709,162 @@ def replay_generic(fn):
             globals()["valid_scens"] = saved
         return vs
     return f
+
+
+# ------------------------------------------------------------------------------------------ C16
+PERMITTED = [
+    ("ValueError", "sim_start_time format"), ("ValueError", "sim_end_time format"),
+    ("ValueError", "The first date of the climate data"), ("ValueError", "The model end date cannot be longer"),
+    ("ValueError", "Simulation period must be less than 580"),
+    ("AssertionError", "not enough growing degree days"), ("AssertionError", "crop will take longer than 1 year"),
+    ("ValueError", "Error in weather_df format"),
+]
+
+
+def permitted_rejection(err):
+    return err is not None and any(err[0] == t and m in err[1] for t, m in PERMITTED)
+
+
+def c16_cell(sc):
+    """run one catalogue cell; returns None if fine, else a violation-description dict"""
+    import signal
+
+    def on_alarm(signum, frame):
+        raise TimeoutError("run exceeded 120 s")
+    signal.signal(signal.SIGALRM, on_alarm)
+    signal.alarm(120)
+    try:
+        tr = rec.run_scenario(sc, S.build_model)
+    except TimeoutError as e:
+        signal.alarm(0)
+        return dict(key="does-not-terminate", what="run does not terminate within 120 s", error=str(e))
+    finally:
+        signal.alarm(0)
+    if tr.error:
+        err = (tr.error[0], tr.error[1])
+        if permitted_rejection(err):
+            return dict(ok="rejected")
+        where = tr.error[2].split(":")
+        fn = where[0].split("/")[-1].replace(".py", "") if where and where[0] else "unknown"
+        return dict(key=f"raises-{tr.error[0]}-{fn}", what="run raises an exception that is not a documented rejection",
+                    error=list(tr.error))
+    if not tr.finished:
+        return dict(key="not-finished", what="run stops without reaching termination")
+    gw = sc.get("gw") is not None
+    for name, A in (("flux", tr.flux), ("storage", tr.storage), ("growth", tr.growth)):
+        ts = [d["t"] for d in tr.days]
+        B = A[ts]
+        bad = ~np.isfinite(B)
+        if name == "flux" and not gw:
+            bad[:, 4] = False      # water-table depth column exempt when no table is configured
+        if bad.any():
+            i, j = np.argwhere(bad)[0]
+            col = int(j)
+            key = f"non-finite-{name}-col{col}"
+            yld_unset = not S.crop_params[sc["crop"]["name"]].get("YldWC") and "YldWC" not in sc["crop"].get("overrides", {})
+            if name == "growth" and set(np.argwhere(bad)[:, 1].tolist()) == {13} and yld_unset:
+                key = "freshyield-yldwc-unset"
+            return dict(key=key, what="non-finite value in an output table", t=int(ts[i]), col=col)
+    for row in tr.summary or []:
+        if not all(np.isfinite(x) for x in row[4:]):
+            yld_unset = not S.crop_params[sc["crop"]["name"]].get("YldWC") and "YldWC" not in sc["crop"].get("overrides", {})
+            if yld_unset and np.isfinite(row[4]) and np.isfinite(row[6]) and np.isfinite(row[7]):
+                return dict(key="freshyield-yldwc-unset", what="non-finite fresh yield in the seasonal summary")
+            return dict(key="non-finite-summary", what="non-finite value in the seasonal summary", row=str(row))
+    return None
+
+
+SWITCHES = {"ETadj": [0, 1], "PlantMethod": [0, 1], "CropType": [1, 2, 3], "GDDmethod": [1, 2, 3],
+            "Determinant": [0, 1], "PolHeatStress": [0, 1], "PolColdStress": [0, 1], "TrColdStress": [0, 1]}
+
+
+def c16_scenarios(seed, tier):
+    """covering design over the catalogue: every crop, every soil, every strategy, every documented
+    value of every option switch, management / groundwater / initial-content / CO2 options"""
+    rng = np.random.default_rng(seed + 16)
+    crops, soils = list(S.CROPS), list(S.BUILTIN_SOILS)
+    n = 150 if tier == "quick" else 1500
+    out = []
+    sw_names = list(SWITCHES)
+    for i in range(n):
+        crop = crops[i % len(crops)]
+        soil = soils[(i // 2 + i) % len(soils)] if tier == "quick" else soils[int(rng.integers(len(soils)))]
+        method = i % 6
+        year = int(rng.choice([1999, 2000, 2003, 2004]))
+        pm = int(rng.choice([2, 3, 4, 5, 9, 10, 11]))
+        pd_ = int(rng.integers(1, 29))
+        leap = False
+        if i % 37 == 5:
+            pm, pd_, leap = 2, 29, True
+            year = 2000 if rng.random() < 0.5 else 2004
+        start = pd.Timestamp(year=year, month=pm, day=pd_)
+        mode = i % 9
+        if mode == 7:      # start after planting: the first season is next year
+            start = start + pd.Timedelta(days=int(rng.integers(1, 40)))
+        if mode == 8:      # start well before planting
+            start = start - pd.Timedelta(days=int(rng.integers(1, 120)))
+        length = int(rng.choice([420, 500, 800]))
+        if i % 23 == 3:
+            length = int(rng.choice([40, 90, 150]))     # ends mid-season / partial season
+        end = start + pd.Timedelta(days=length)
+        regime = str(rng.choice(["hot", "mild", "storm", "drought", "hot"]))
+        sc = dict(id=16000 + i, start=start.strftime("%Y/%m/%d"), end=end.strftime("%Y/%m/%d"),
+                  weather=dict(kind="synth", seed=int(rng.integers(1 << 30)), regime=regime,
+                               start=(start - pd.Timedelta(days=5)).strftime("%Y-%m-%d"),
+                               end=(end + pd.Timedelta(days=5)).strftime("%Y-%m-%d"), south=(pm >= 9)),
+                  soil=dict(type=soil), crop=dict(name=crop, planting=f"{pm:02d}/{pd_:02d}", overrides={}),
+                  off_season=bool(i % 2))
+        if soil not in ("Paddy", "ac_TunisLocal") and rng.random() < 0.3:
+            sc["soil"]["dz"] = S.DZ_CHOICES[1 + int(rng.integers(len(S.DZ_CHOICES) - 1))]
+        # one or two option switches per cell, cycling through all documented values
+        k = sw_names[i % len(sw_names)]
+        v = SWITCHES[k][(i // len(sw_names)) % len(SWITCHES[k])]
+        sc["crop"]["overrides"][k] = v
+        if rng.random() < 0.3:
+            k2 = sw_names[int(rng.integers(len(sw_names)))]
+            sc["crop"]["overrides"][k2] = int(rng.choice(SWITCHES[k2]))
+        nlayer = 2 if soil in ("Paddy", "ac_TunisLocal") else 1
+        sc["iwc"] = S.random_iwc(rng, nlayer)
+        sc["irr"] = S.random_irr(rng, method, sc["start"], sc["end"]) if (method or rng.random() < 0.5) else None
+        fmk = ["none", "mulch", "bunds", "srinhb", "cnadj", "mix", "bunds0"][i % 7]
+        if fmk == "bunds0":
+            sc["fm"] = dict(bunds=True, z_bund=0.0, bund_water=0.0)     # documented default bund height
+        else:
+            sc["fm"] = S.random_fm(rng, fmk)
+        sc["ffm"] = S.random_fm(rng) if rng.random() < 0.2 else None
+        sc["gw"] = S.random_gw(rng, sc["start"], sc["end"]) if i % 4 == 1 else None
+        c = i % 5
+        sc["co2"] = None if c < 2 else (dict(constant=True, current=float(rng.choice([0, 300, 450, 700, 2100]))) if c < 4 else dict(constant=False))
+        sc["c16_leap_day"] = leap
+        out.append(sc)
+    return out
+
+
+def c16(ctx):
+    seed, tier = ctx["seed"], ctx["tier"]
+    scs = c16_scenarios(seed, tier)
+    import multiprocessing as mp
+    with mp.get_context("fork").Pool(min(16, os.cpu_count() or 4)) as pool:
+        res = pool.map(c16_cell, scs, chunksize=2)
+    viols, rejected, ok = [], 0, 0
+    import collections
+    cover = collections.Counter()
+    for sc, r in zip(scs, res):
+        cover["crop:" + sc["crop"]["name"]] += 1
+        cover["soil:" + sc["soil"]["type"]] += 1
+        cover["method:%d" % ((sc.get("irr") or {}).get("method", 0))] += 1
+        for k, v in sc["crop"]["overrides"].items():
+            cover[f"{k}={v}"] += 1
+        if r is None:
+            ok += 1
+        elif r.get("ok") == "rejected":
+            rejected += 1
+        else:
+            key = r.pop("key")
+            what = r.pop("what")
+            viols.append(V("C16", key, sc, what, overrides=sc["crop"]["overrides"], **r))
+    return viols, dict(evaluations=len(scs), distinct_nontrivial=ok, c16_completed_finite=ok, c16_permitted_rejections=rejected,
+                       c16_crops=len([k for k in cover if k.startswith("crop:")]),
+                       c16_soils=len([k for k in cover if k.startswith("soil:")]),
+                       c16_switch_values={k: v for k, v in cover.items() if "=" in k},
+                       c16_samples=[dict(crop=s["crop"], soil=s["soil"], irr=(s.get("irr") or {}).get("method")) for s in scs[:2]])
